@@ -44,6 +44,7 @@ var hashes = []hdef{
 }
 
 func run(c *vf.Ctx) {
+	c.RaceCompanion("the hkdf/pbkdf2 functions", "golang.org/x/crypto/hkdf.", "golang.org/x/crypto/pbkdf2.")
 	c.Rule("PBKDF2: hash{sha1,sha224,sha256,sha384,sha512} x iter{1,2,3,4,5,1000} x every keyLen 1..3*hLen+2 (iter<=5; boundary set at 1000) x password len{0,1,B-1,B,B+1,200} x salt len{0,1,8,B,200} x value classes; " +
 		"HKDF: same hashes x secret len{0,1,hLen,B,B+1,200} x salt{nil,empty,1,hLen,B,B+1} x info len{0,1,10,200}, Extract/Expand/New compared over the whole 255*hLen stream; " +
 		"reader: ALL sequences of Read(n), n in {0,1,hLen-1,hLen,hLen+1,2hLen+1,254hLen-1,254hLen,254hLen+1,255hLen-1,255hLen,255hLen+1}, depth 4 (thorough 5), no state merging, for sha1/sha256/sha512 x {Expand,New}, each followed by a drain epilogue; " +
